@@ -72,7 +72,11 @@ def setup(ctx):
     return {}
 
 
-def content(rng, D, lead, sp, offset):
+REPS = ("float32", "float32", "numpy", "int32", "float64-x64")
+_CONV = None  # how a NumPy block is handed to the library in this case (jnp.asarray / the NumPy array itself)
+
+
+def content(rng, D, lead, sp, offset, rep="float32"):
     ts = TYPESETS[int(rng.integers(len(TYPESETS)))]
     if D == 1:
         ts = [((0, 0), 2), ((0, 1), 2)][: int(rng.integers(1, 3))]
@@ -85,7 +89,9 @@ def content(rng, D, lead, sp, offset):
             shp = sp + (D,) * k
         n = int(np.prod(shp))
         vals = (TCODE[(k, p)] * 10000 + np.arange(n)) * offset[0] + offset[1]
-        out[(k, p)] = vals.reshape(shp).astype(np.float32)
+        if rep == "float64-x64":
+            vals = vals + 2.0**31 + 0.5  # not representable in float32: a silent down-cast loses the ids
+        out[(k, p)] = vals.reshape(shp).astype({"int32": np.int32, "float64-x64": np.float64}.get(rep, np.float32))
     return out
 
 
@@ -100,7 +106,7 @@ def build(rng, geom, jax, jnp, blocks, D, torus, n_lead):
         ctor.append("concat_types")
     how = ctor[int(rng.integers(len(ctor)))]
     hist = [how + ":" + ",".join(f"{k}{p}" for k, p in order)]
-    J = {t: jnp.asarray(blocks[t]) for t in keys}
+    J = {t: (_CONV or jnp.asarray)(blocks[t]) for t in keys}
     if how == "dict":
         mi = geom.MultiImage({t: J[t] for t in order}, D, torus)
     elif how == "append":
@@ -181,14 +187,27 @@ def build(rng, geom, jax, jnp, blocks, D, torus, n_lead):
 
 
 def run(case, ctx):
+    import contextlib
     import jax
-    import jax.numpy as jnp
-    import ginjax.geometric as geom
 
     if case.get("kind") == "suite":
         from .. import suite
 
         return suite.run_suite("arith", files=["tests/test_multi_image.py", "tests/test_models.py", "tests/test_ml.py"])
+    # operand representation: float32 jax arrays (default), NumPy arrays handed to the constructors as they are, int32
+    # payloads, float64 payloads in x64 mode whose ids do not fit float32
+    rep = REPS[case["i"] % len(REPS)]
+    with (jax.enable_x64() if rep == "float64-x64" else contextlib.nullcontext()):
+        return _run(case, ctx, rep)
+
+
+def _run(case, ctx, rep):
+    import jax
+    import jax.numpy as jnp
+    import ginjax.geometric as geom
+
+    global _CONV
+    _CONV = (lambda v: v) if rep == "numpy" else jnp.asarray
     rng = rng_for(ctx["seed"], ID, case["i"])
     D = int(rng.choice([1, 2, 2, 3]))
     n_lead = int(rng.integers(0, 3))
@@ -196,9 +215,9 @@ def run(case, ctx):
     sp = tuple(int(v) for v in rng.integers(1, 4, size=D))
     torus = tuple(bool(v) for v in rng.integers(0, 2, size=D))
     rs = np.random.default_rng([ctx["seed"], 12, case["i"], 7])
-    blocks_a = content(rs, D, lead, sp, (1, 0))
+    blocks_a = content(rs, D, lead, sp, (1, 0), rep)
     rs = np.random.default_rng([ctx["seed"], 12, case["i"], 7])
-    blocks_b = content(rs, D, lead, sp, (3, 1))
+    blocks_b = content(rs, D, lead, sp, (3, 1), rep)
     viols, evals = [], 0
     _mon.take()
     try:
@@ -214,7 +233,12 @@ def run(case, ctx):
             if t not in mi or np.asarray(mi[t]).shape != v.shape or not np.array_equal(np.asarray(mi[t]), v):
                 viols.append(viol("construction-changed-content", f"operand {nm}: block {t} differs after history {ha if nm == 'a' else hb}"))
     orders = (list(a.keys()), list(b.keys()))
-    key = {"D": D, "n_lead": n_lead, "sp": sp, "types": sorted(blocks_a), "order_a": orders[0], "order_b": orders[1], "ha": ha, "hb": hb}
+    key = {"D": D, "n_lead": n_lead, "sp": sp, "types": sorted(blocks_a), "order_a": orders[0], "order_b": orders[1], "ha": ha, "hb": hb, "rep": rep}
+    want_dtype = {"int32": "int32", "float64-x64": "float64"}.get(rep, "float32")
+    for nm, mi in (("a", a), ("b", b)):
+        bad = {t: str(v.dtype) for t, v in mi.items() if str(v.dtype) != want_dtype}
+        if bad and not viols and rep != "int32":  # integer payloads may legitimately become float32 (from_vector, concat)
+            viols.append(viol("construction-changed-dtype", f"operand {nm}: blocks {bad} after history {ha if nm == 'a' else hb}, put in as {want_dtype}"))
     if not viols:
         s = float(rng.integers(2, 6))
         s = [s, int(s), np.float32(s), jnp.asarray(s)][int(rng.integers(4))]  # python float / int / numpy scalar / 0-d jax array
@@ -262,7 +286,8 @@ def run(case, ctx):
             # one element differs in one type -> not equal
             t = list(blocks_a)[int(rng.integers(len(blocks_a)))]
             mod = {kk: v.copy() for kk, v in blocks_a.items()}
-            mod[t].reshape(-1)[int(rng.integers(mod[t].size))] += 7
+            j_ = int(rng.integers(mod[t].size))
+            mod[t].reshape(-1)[j_] += max(7, abs(mod[t].reshape(-1)[j_]))  # well outside the tolerance of the library's allclose-based ==
             a3, _, _ = build(rng, geom, jax, jnp, mod, D, torus, n_lead)
             if a == a3:
                 viols.append(viol("eq-mismatch", f"operands differing in block {t} compare equal"))
@@ -286,7 +311,7 @@ def run(case, ctx):
     viols += _mon.take()
     nontrivial = len(blocks_a) >= 2 and (orders[0] != orders[1] or rta or rtb)
     return result(key, viols, nontrivial, evals=evals, obs={"monitored_ops": evals, "orders_differ": int(orders[0] != orders[1]), "round_trips": int(rta or rtb)},
-                  hist={"D": D, "n_lead": n_lead, "ntypes": len(blocks_a), "ctor_a": ha[0].split(":")[0], "ctor_b": hb[0].split(":")[0], "transformers": ha[1:] + hb[1:]},
+                  hist={"D": D, "rep": rep, "n_lead": n_lead, "ntypes": len(blocks_a), "ctor_a": ha[0].split(":")[0], "ctor_b": hb[0].split(":")[0], "transformers": ha[1:] + hb[1:]},
                   sample={"key": key})
 
 
